@@ -5,6 +5,30 @@ COMMON_ASSUME = [
 ]
 NOT_APPLICABLE = {}
 PROPS = {
+    "C10": {
+        "claim": "TODO", "note": "TODO",
+        "props_file": "props/C10.v",
+        "shards": (4, 16),
+        "rule": "TODO",
+        "assumptions": COMMON_ASSUME,
+        "trusted_base": [],
+    },
+    "C04": {
+        "claim": "TODO", "note": "TODO",
+        "props_file": "props/C04.v",
+        "shards": (4, 16),
+        "rule": "TODO",
+        "assumptions": COMMON_ASSUME,
+        "trusted_base": [],
+    },
+    "C03": {
+        "claim": "TODO", "note": "TODO",
+        "props_file": "props/C03.v",
+        "shards": (4, 16),
+        "rule": "TODO",
+        "assumptions": COMMON_ASSUME,
+        "trusted_base": [],
+    },
     "C02": {
         "claim": "TODO", "note": "TODO",
         "props_file": "props/C02.v",
